@@ -33,6 +33,47 @@ def is_transport_self(ga):
     return False
 
 
+def writer_flavours_semantic(g, a, b):
+    """default writers of the world message traits (`&Self`, W[, encrypter]): both copies are evaluated by the piecewise-affine writer
+    interpreter over every body length; header length, size field, bytes handed to the transport, events and cipher steps must be the
+    same for every length.  -> None when they agree, a message when a length tells them apart; raises Unsupported when not applicable"""
+    from ..minieval import Unsupported
+    from ..framew import analyse_writer
+    from . import c02_frame
+    m = re.match(r"^(?:<.+ as )?crate::traits::(vanilla|tbc|wrath)::(Server|Client)Message::", a["path"])
+    if not m or not re.search(r"write_(un)?encrypted_(server|client)$", a["name"]):
+        raise Unsupported("not a default writer of the message traits")
+    exp, side = m.group(1), m.group(2).lower()
+    op_len = 4 if side == "client" else 2
+    bmax = c02_frame.bmax_for(exp, side)
+
+    def summary(fn):
+        out = []
+        for lo, hi, s, err in analyse_writer(g, "wow_world_messages", fn, exp, side, bmax):
+            if err:
+                raise Unsupported(str(err)[:80])
+            sf = s.sf
+            if sf is None and s.header_len is not None:
+                sf, perr = c02_frame.header_sf(s.header_bytes, s.header_len - op_len, op_len)
+                if perr:
+                    raise Unsupported(str(perr)[:80])
+            tr = s.transport[2][0] if s.transport is not None else None
+            row = (s.header_len, (sf[1], sf[2]) if sf else None, (tr[1], tr[2]) if tr else None, tuple(sorted(k for k, _ in s.events)), s.enc_calls)
+            if out and out[-1][2:] == row and out[-1][1] + 1 == lo:
+                out[-1] = (out[-1][0], hi) + row
+            else:
+                out.append((lo, hi) + row)
+        return out
+    sa, sb = summary(a), summary(b)
+    for p_ in sorted({x[0] for x in sa} | {x[0] for x in sb}):
+        ra = next(x for x in sa if x[0] <= p_ <= x[1])
+        rb = next(x for x in sb if x[0] <= p_ <= x[1])
+        if ra[2:] != rb[2:]:
+            return (f"for body length {p_:#x} the blocking copy sends a {ra[2]}-byte header with size field {ra[3]}, {ra[4]} bytes in total, events {list(ra[5])}, {ra[6]} cipher step(s); "
+                    f"the async copy a {rb[2]}-byte header with size field {rb[3]}, {rb[4]} bytes, events {list(rb[5])}, {rb[6]} cipher step(s)")
+    return None
+
+
 def run(ctx):
     st = state()
     g = st["g"]
@@ -74,9 +115,15 @@ def run(ctx):
                     # not the same tree: the copies are interpreted on the same abstract inputs and must be indistinguishable
                     why = None
                     try:
-                        from ..sibsem import sibling_semantic
+                        from ..sibsem import sibling_semantic, async_plain
                         from ..minieval import Unsupported, Panic
-                        why, runs = sibling_semantic(g, crate, members["sync"], fn)
+                        if re.search(r"write_(un)?encrypted_(server|client)$", fn["name"]) and "traits::" in fn["path"]:
+                            np_ = async_plain(F, fn)
+                            if np_:
+                                raise Unsupported("the async copy is not plain sequential async code: " + np_)
+                            why, runs = writer_flavours_semantic(g, members["sync"], fn), 1
+                        else:
+                            why, runs = sibling_semantic(g, crate, members["sync"], fn)
                         if why is None:
                             n_sem += 1
                             n_sem_runs += runs
